@@ -19,5 +19,4 @@ package receiver
 //@   modifies *
 //@   ensures tokens: ghost_held == old(ghost_held) + ite(r0 == nil, 1, 0)
 //@   ensures corrupt_remembered: ghost_ncorrupt > old(ghost_ncorrupt) ==> r0 != nil && d.last.FullName == ni.FullName
-//@   ensures corrupt_marked_once: ghost_ncorrupt <= old(ghost_ncorrupt) + 1
 //@   at_call receiver.(*Receiver).MarkCorrupt#0 assert decompress_token_released: ghost_held == old(ghost_held) + 1
